@@ -1,0 +1,17 @@
+//go:build verif
+
+// SPDX-License-Identifier: Apache-2.0
+// Copyright Authors of Cilium
+
+package reconciler
+
+import "time"
+
+// Accessors for the verification harness in /verif (build tag "verif" only).
+
+// VerifBackoffDuration returns the retry backoff for the given number of
+// attempts with the given bounds.
+func VerifBackoffDuration(min, max time.Duration, attempt int) time.Duration {
+	e := exponentialBackoff{min: min, max: max}
+	return e.Duration(attempt)
+}
